@@ -323,6 +323,11 @@ def dim_follow(rng, kind, glue=False):
     if glue and rng.random() < 0.2:
         # text that starts like a keyword but does not spell it: the matcher must push all of it back
         return w_text(rng.choice(['p', 'pl', 'plu', 'plux', 'Plum', 'm', 'mi', 'minu', 'MINUx', 'min us', 'pm', 'plu s']))
+    if glue and rng.random() < 0.2:
+        # text that spells a whole keyword: after the shrink part the glue is complete and `plus ...` is ordinary text (as in TeX);
+        # where the keyword would still be read (conformance is decided by the driver) only the model is compared
+        return w_text(rng.choice(['plus two', 'plus', 'plus.', 'PLUS 2pt', 'Plus1fil x', 'minus one', 'minus', 'MINUS 3pt', 'plus minus',
+                                  'minus plus', 'plus 2pt minus 1pt']))
     if k == 'letterx':
         return [w_ch(rng.choice('aRxzQkg'))] + follow(rng, ['eof', 'letter', 'digit'])[:1]
     return follow(rng, [k])
@@ -638,6 +643,8 @@ def gen_arg_case(rng, malformed=False):
     rest = rng.choice([[], ['c82'], ['c82', 'c69'], ['{', 'c120', '}'], ['x' + dots('relax'), 'c82'], ['c46'], ['s', 'c82']] + BLANK_CS_RESTS[:3])
     if used_last:
         rest = rng.choice([[], ['c82'], ['x' + dots('relax'), 'c82'], ['c46']])
+        if sig[-1].split(':')[-1] in ('Glue', 'Skip') and rng.random() < 0.3:
+            rest = w_text(rng.choice(['plus two', 'minus one', 'plus', 'Plus 1pt']))
         if call and call[-1] == 's' and rest[:1] == ['s']:
             rest = rest[1:]
     if malformed and call:
@@ -810,6 +817,8 @@ def corpus():
         finish_arg_case(Case('arg', '', {'sig': 'a0:str a1', 'toks': ['{', 's', 'c120', '{', 'c121', '}', 'c122', 's', '}', '{', 'c119', '}', 'c82']}, 'corpus')),
         finish_arg_case(Case('arg', '', {'sig': '[ a0:str ] a1', 'toks': ['c91', 'c120', '{', 'c121', '}', 'c93', '{', 'c122', '}', 'c82']}, 'corpus')),
         Case('lit', 'I S 1 2 m1 p0 h 1.15 1 | c103', {'k': 'I'}, 'corpus'),
+        # glue ends after its shrink part: `3pt minus 1pt plus two` leaves `plus two`
+        Case('lit', 'G S 0 0 M S 0 0 B 3 n - U 0 - p0 112.116 0 P - N 1 109.105.110.117.115 M S 1 0 B 1 n - U 0 - p0 112.116 1 | c112 c108 c117 c115 s c116 c119 c111', {'k': 'G'}, 'corpus'),
         Case('call', '2 91.93 0 A 0 t 1 P 3 c97 { } | c82', {}, 'corpus'),
         # control symbols named like the delimiter are ordinary tokens of an unexpanded argument: \\foo<a\\>b>{m}R, \\foo[x\\[y]{m}R
         Case('call', '2 60.62 0 P 3 c97 x62 c98 t 0 P 1 c109 | c82', {'nox': True}, 'corpus'),
